@@ -24,7 +24,7 @@ TOL_NUM, TOL_DEN = 1, 2 ** 49           # relative enclosure term of the float i
 
 def load_shm_program():
     deps, ts, wall = common.dump_mir('shm')
-    prog = Program(deps, repo=common.REPO, only={'clock_bound_shm', 'clock_bound_client', 'nix', 'errno', 'libc', 'byteorder'})
+    prog = Program(deps, repo=common.REPO, only={'clock_bound_shm', 'clock_bound_client', 'clockbound', 'nix', 'errno', 'libc', 'byteorder'})
     prog.layouts = common.parse_layouts(ts, prog.struct_fields)
     return prog, wall
 
